@@ -353,6 +353,7 @@ def shards(tier):
 
 _SEEDS = None
 _BASE = {}
+_REFUSED = set()
 _meter = monitors.StepMeter()
 
 
@@ -406,8 +407,12 @@ def _baseline(seed):
         outcome, steps, peak = _run_metered(seed["drv"], seed["raw"], seed["kw"], BASELINE_STEP_CAP)
         if outcome == "steps":
             raise SeedDoesNotTerminate(f"{seed['name']}: {steps} steps on the un-faulted seed")
+        if outcome in ("memory", "timeout"):
+            raise AssertionError(f"harness: un-faulted seed {seed['name']}: {outcome}")
         if outcome != "returned":
-            raise AssertionError(f"harness: un-faulted seed {seed['name']} is not accepted: {outcome}")
+            # the tree under test refuses a well-formed input: not a matter of this property (raising is an allowed
+            # answer); the faults derived from the seed are still inputs like any other.  Counted in the evidence.
+            _REFUSED.add(seed["name"])
         _BASE[seed["name"]] = (steps, peak)
     return _BASE[seed["name"]]
 
@@ -424,6 +429,8 @@ def _execute(ctx, case, seed, data, subject, drv=None, kw=None, input_bytes=None
         return False
     if seed is not None and seed["name"] not in _BASE:
         return False  # the watchdog fired while measuring the baseline (reported by ctx.watch)
+    if seed is not None and seed["name"] in _REFUSED:
+        ctx.extra["well-formed-seed-refused:" + seed["name"]] = 1
     n_in = input_bytes if input_bytes is not None else len(data)
     sectors = n_in // 512 + 6 * (A // 512) + 64
     budget = 20 * bsteps + 1024 * sectors + 20000
